@@ -93,6 +93,9 @@ func (s *sigWriter) call(depth int) {
 			ann.Empty = true // empty slot
 		} else {
 			s.arg(depth - 1)
+			if i == n-1 && g.Chance(12) {
+				s.sb.WriteString("...") // expanded final argument: still the same slot
+			}
 		}
 		s.ws()
 	}
